@@ -1030,6 +1030,9 @@ class BaseMatcher:
                             # A stopped entry is only a placeholder kept for debug output, it does not make the state known
                             if m_next.key in cur_lattice_new and not cur_lattice_new[m_next.key].stop:
                                 cur_lattice_new[m_next.key].update(m_next)
+                            elif m_next.stop:
+                                # Only kept for debug output, a stopped matching is not a known state
+                                cur_lattice_new[m_next.key] = m_next
                             else:
                                 if m_next.shortkey in lattice_best:
                                     # if m_next.logprob > lattice_best[m_next.shortkey].logprob:
@@ -1082,7 +1085,10 @@ class BaseMatcher:
                         edge_o = Segment(f"O{obs_idx+1}", obs_next)
                         m_next = m.next(edge_m, edge_o, obs=obs_idx)
                         if m_next is not None:
-                            if m_next.shortkey in lattice_best:
+                            if m_next.stop:
+                                # Only kept for debug output, a stopped matching is not a known state
+                                self.lattice[obs_idx].upsert(m_next)
+                            elif m_next.shortkey in lattice_best:
                                 # if m_next.dist_obs < lattice_best[m_next.shortkey].dist_obs:
                                 if m_next.logprob > lattice_best[m_next.shortkey].logprob:
                                     lattice_best[m_next.shortkey] = m_next
@@ -1126,7 +1132,10 @@ class BaseMatcher:
                         edge_o = Segment(f"O{obs_idx+1}", obs_next)
                         m_next = m.next(edge_m, edge_o, obs=obs_idx)
                         if m_next is not None:
-                            if m_next.shortkey in lattice_best:
+                            if m_next.stop:
+                                # Only kept for debug output, a stopped matching is not a known state
+                                self.lattice[obs_idx].upsert(m_next)
+                            elif m_next.shortkey in lattice_best:
                                 # if m_next.dist_obs < lattice_best[m_next.shortkey].dist_obs:
                                 if m_next.logprob > lattice_best[m_next.shortkey].logprob:
                                     lattice_best[m_next.shortkey] = m_next
